@@ -13,6 +13,8 @@ import json, os, shutil, subprocess, sys, tempfile, time, glob, re
 
 VERIF = os.path.dirname(os.path.dirname(os.path.abspath(__file__)))
 REPO = os.environ.get("VERIF_REPO", "/repo")
+# evidence and replay files go to /verif unless a mutation evaluation redirects them
+OUTDIR = os.environ.get("VERIF_OUT_DIR", VERIF)
 GO = "go1.26.8"
 NCPU = int(os.environ.get("VERIF_WORKERS") or (os.cpu_count() or 4))
 
@@ -300,7 +302,7 @@ def main2(prop, cfg, tier, seed, scratch, instr_stats, replay_mode, t_start):
                         harness_errors.append("too many worker deaths; range %d-%d not explored" % (idx + 1, hi))
 
     # ---- confirm violations by replay in a fresh process, dedupe by (class,key) ----
-    os.makedirs(os.path.join(VERIF, "replays"), exist_ok=True)
+    os.makedirs(os.path.join(OUTDIR, "replays"), exist_ok=True)
     known = [k for k in load_known() if k.get("property") == prop]
     confirmed, seen = [], set()
     for v in violations:
@@ -308,7 +310,7 @@ def main2(prop, cfg, tier, seed, scratch, instr_stats, replay_mode, t_start):
         if ident in seen:
             continue
         seen.add(ident)
-        path = os.path.join(VERIF, "replays", "%s-%s-%d-%s.json" % (prop, re.sub(r"[^A-Za-z0-9_.-]+", "_", v["key"])[:60], seed, v["index"]))
+        path = os.path.join(OUTDIR, "replays", "%s-%s-%d-%s.json" % (prop, re.sub(r"[^A-Za-z0-9_.-]+", "_", v["key"])[:60], seed, v["index"]))
         json.dump(v, open(path, "w"), indent=1)
         race = bool(v.get("race_build"))
         code, rec, tail = replay_once(binaries[race], prop, cfg, path, scratch, race, "c%d" % len(seen))
@@ -424,8 +426,8 @@ def write_evidence(prop, cfg, tier, seed, summaries, confirmed, new, known_hits,
         "wall_s": round(wall, 2),
         "violations": len(new),
     }
-    os.makedirs(os.path.join(VERIF, "evidence"), exist_ok=True)
-    json.dump(ev, open(os.path.join(VERIF, "evidence", prop + ".json"), "w"), indent=1)
+    os.makedirs(os.path.join(OUTDIR, "evidence"), exist_ok=True)
+    json.dump(ev, open(os.path.join(OUTDIR, "evidence", prop + ".json"), "w"), indent=1)
 
 
 if __name__ == "__main__":
